@@ -146,6 +146,10 @@ class Ev:
     def _mk(self, *a, **kw):
         e = type(self)(self.repo, *a, **kw)
         e.hooks = self.hooks
+        if getattr(self, "model_objects", False):
+            e.model_objects = True
+        if "ignore_calls" in self.__dict__:
+            e.ignore_calls = self.ignore_calls
         return e
 
     def __init__(self, repo, mod, env=None, self_cls=None, depth=0):
@@ -832,11 +836,15 @@ class Ev:
                     except Unknown:
                         pass
             return Instance(f.ci)           # an object of that class; nothing but its class is known
+        if callable(f) and isinstance(n.func, ast.Attribute) and not kw:
+            return f(args)                  # oracle stored in a dict-shaped object (`msg.desc_hdr()`)
         raise Unknown("call %s" % fname)
 
     def _method(self, recv, name, args, kw, n):
         if recv is None:
             raise Raised("AttributeError", n)
+        if isinstance(recv, dict) and name in recv and callable(recv[name]):
+            return recv[name](args)         # dict-shaped object with an oracle for one of its methods
         if isinstance(recv, ReCompiled):
             if name in ("match", "fullmatch", "search") and len(args) == 1 and isinstance(args[0], str) and not kw:
                 m_ = getattr(recv.p, name)(args[0])
@@ -1001,14 +1009,23 @@ class Ev:
                 else:
                     raise
             for t in st.targets:
-                if isinstance(t, ast.Attribute):
+                if isinstance(t, ast.Attribute) and isinstance(t.value, ast.Name) and isinstance(self.env.get(t.value.id), dict) \
+                        and t.attr in self.env[t.value.id]:
+                    self.env[t.value.id][t.attr] = v          # dict-shaped object: the attribute lives in the object
+                elif isinstance(t, ast.Attribute):
                     self.env[ast.unparse(t)] = v
                 elif isinstance(t, ast.Subscript):
                     base = self.ev(t.value)
                     if not isinstance(base, (dict, list, bytearray)):
                         raise Unknown("item store into %s" % type(base).__name__)
                     try:
-                        base[self.ev(t.slice)] = v
+                        if isinstance(t.slice, ast.Slice):
+                            lo_ = self.ev(t.slice.lower) if t.slice.lower is not None else None
+                            hi_ = self.ev(t.slice.upper) if t.slice.upper is not None else None
+                            sp_ = self.ev(t.slice.step) if t.slice.step is not None else None
+                            base[slice(lo_, hi_, sp_)] = v.tobytes() if isinstance(v, Arr) and isinstance(base, bytearray) else v
+                        else:
+                            base[self.ev(t.slice)] = v
                     except (IndexError, TypeError, KeyError, ValueError) as e:
                         raise Raised(type(e).__name__, st)
                 else:
@@ -1084,6 +1101,8 @@ class Ev:
             return self.run_block(st.body)
         if isinstance(st, ast.Raise):
             cls = "Exception"
+            if st.exc is None and getattr(self, "_handling", None) is not None:
+                raise Raised(self._handling.cls, st)          # bare `raise` in a handler: the exception being handled
             if st.exc is not None:
                 e = st.exc
                 if isinstance(e, ast.Call):
@@ -1138,7 +1157,12 @@ class Ev:
                             or (e.cls in ("IndexError", "KeyError") and "LookupError" in names):
                         if h.name:
                             self.env[h.name] = Opaque("exception %s" % e.cls)
-                        return self.run_block(h.body)
+                        prev_ = getattr(self, "_handling", None)
+                        self._handling = e
+                        try:
+                            return self.run_block(h.body)
+                        finally:
+                            self._handling = prev_
                 raise
             if r is not _FALL:
                 return r
